@@ -55,16 +55,22 @@ Theorem C27_token_shape : forall (t tok : text),
 Proof. exact (token_shape arts1 arts2 arts_same). Qed.
 Print Assumptions C27_token_shape.
 
-(** Article rule, token level (the part of the full statement that is proved, hence
-    [_partial]): in the token list every token ends with a non-article word, or the
-    token after it starts with an article. Together with [C27_wrap_width]'s reading
-    that segments consist of whole tokens this is the article rule; the lift to the
-    executable segment-level rule [article_rule] is validated by the correspondence
-    stream and the oracle, not proved. *)
-Theorem C27_wrap_article_partial : forall (t : text),
+(** Article rule, token level: in the token list every token ends with a non-article
+    word, or the token after it starts with an article. *)
+Theorem C27_tokens_articles_kept : forall (t : text),
   chain arts1 (tokens_loop arts1 arts2 (split_on SP t) None).
 Proof. exact (tokens_articles_kept arts1 arts2 arts_same). Qed.
-Print Assumptions C27_wrap_article_partial.
+Print Assumptions C27_tokens_articles_kept.
+
+(** Article rule, segment level, full statement: for every text and width, a segment
+    whose last word is an article is followed (blanks skipped) by nothing or by another
+    article — an article is never cut off from the word it belongs to. ([article_rule]
+    is the executable rule of Model/Wrap.v; consecutive articles are split by design,
+    which the repository's own unit test [test_only_articles] pins.) *)
+Theorem C27_wrap_article : forall (w : Z) (t : text),
+  article_rule arts1 (wrap arts1 arts2 w t) = true.
+Proof. exact (wrap_article arts1 arts2 arts_same C27_gen_articles_ok). Qed.
+Print Assumptions C27_wrap_article.
 
 (** Non-vacuity: a text with articles, double blanks, consecutive articles and a
     trailing article really is split, and the rule is not trivially true. *)
